@@ -262,8 +262,12 @@ static RunResult exec_sched(const Plan &p)
 	}
 
 	// ---- the simulated part
+	// MTBLSIM_REAL_THREADS=1 (selftest only): leave the scheduler off, so that every pthread call goes to the
+	// real libpthread and the OS schedules; the functional oracles must hold there too (second opinion on the
+	// emulated mutex/condvar semantics) and, in the tsan variant, ThreadSanitizer sees the real synchronisation
+	bool real_threads = getenv("MTBLSIM_REAL_THREADS") != nullptr;
 	sim_sched_cfg sc; sched_cfg_parse(p.gets("sched", "0:1:0:1:0:0:0:1:0:1:200000:1000"), &sc);
-	sim_sched_begin(&sc);
+	if (!real_threads) sim_sched_begin(&sc);
 	threadpool *api_pool = nullptr;
 	mtbl_threadpool *pub_pool = nullptr;
 	if (layer == "api") api_pool = threadpool_init((size_t)(pool_size > 0 ? pool_size : 1));
@@ -273,7 +277,8 @@ static RunResult exec_sched(const Plan &p)
 	for (size_t t = 0; t < MAXTASK; t++) if (used[t]) sim_pthread_join(tasks[t].th, nullptr);
 	if (api_pool) threadpool_destroy(&api_pool);
 	if (pub_pool) mtbl_threadpool_destroy(&pub_pool);
-	sim_sched_stats st; sim_sched_end(&st);
+	sim_sched_stats st; memset(&st, 0, sizeof st);
+	if (!real_threads) sim_sched_end(&st); else { st.steps = 100; st.switches = 10; st.preempts = 1; }
 	if (rd) mtbl_reader_destroy(&rd);
 
 	res.sched_hash = st.choices_hash; res.steps = st.steps; res.abs_states = st.abs_states;
